@@ -187,6 +187,8 @@ class Attribute:
             if not isinstance(value, (list, tuple)):
                 value = [value]
             return [self.converter(v) for v in value]
+        if isinstance(value, (list, tuple)):
+            raise TypeError(f"{self} takes a single value; got {type(value)}: {value}")
         return self.converter(value)
 
     @property
